@@ -535,7 +535,11 @@ fn run_history(rng: &mut Rng, json: bool, thorough: bool, report: &Arc<Mutex<Rep
         let choice = rng.below(10);
         let replay = json!({"lane": "bridgefuzz", "wire": wire, "history": hno, "step": step, "phase": "valid step after attacks"});
         let pair = if choice < 4 || outstanding.is_empty() {
-            let ev = match rng.below(8) {
+            let ev = match rng.below(9) {
+                8 => {
+                    next_site += 1;
+                    FEvent::Siblings(next_site)
+                }
                 0 | 1 => {
                     next_site += 1;
                     FEvent::Request(next_site, text(rng))
